@@ -16,7 +16,8 @@ def impl(case):
     from harness import cls
     tr, _, _ = cls.classify(case["gens"], trace=True)
     random.seed(case["seed"])
-    c = get_pauli_string(case["gens"])
+    # the generating set as the caller wrote it: some members without their trailing identities (the collection pads them)
+    c = get_pauli_string(case.get("present") or case["gens"])
     ind = [str(s) for s in c.copy().get_independents()]
     deps = [str(s) for s in c.copy().get_dependents()]
     out = get_optimal_su_2_n_generators(c)
@@ -28,7 +29,7 @@ def main():
     ck = Check("C20")
     if ck.replay:
         rp = json.load(open(ck.replay)); ck.build()
-        print(ck.impl("c20", [{"gens": rp["gens"], "seed": rp["seed"]}], per_case_s=120)[0])
+        print(ck.impl("c20", [{"gens": rp["gens"], "seed": rp["seed"], "present": rp.get("present")}], per_case_s=120)[0])
         return
     if not ck.build():
         ck.finish()
@@ -82,6 +83,13 @@ def main():
     cards = ck.oracle(["closure_card %d %s" % (n, " ".join(g)) for _, n, g in bases])
     bases = [b for b, c in zip(bases, cards) if int(c) == 4 ** b[1] - 1]
     cases = [{"gens": g, "seed": ck.rng.randrange(10 ** 6), "n": n, "kind": kind} for kind, n, g in bases for _ in range(1 if kind == "dense-random" else (2 if kind == "sparse-low-weight" else seeds))]
+    # every fourth case presents its generating set with mixed lengths: trailing identities dropped from some members, in the order given
+    for i, c in enumerate(cases):
+        if i % 4 == 3:
+            pres = [(g.rstrip("I") or "I") if ck.rng.random() < 0.6 else g for g in c["gens"]]
+            if all(len(x) < c["n"] for x in pres):
+                j = ck.rng.randrange(len(pres)); pres[j] = c["gens"][j]
+            c["present"] = pres
     res = ck.impl("c20", cases, per_case_s=90 if ck.quick else 300, procs=15)
     oc = ck.oracle(["closure_card %d %s" % (c["n"], " ".join(r["out"])) if r.get("out") else "closure_card 1 X" for c, r in zip(cases, res)])
     ic = ck.oracle(["closure_card %d %s" % (c["n"], " ".join(r["independents"])) if r.get("independents") else "closure_card 1 X" for c, r in zip(cases, res)])
@@ -93,7 +101,7 @@ def main():
         stats["by_n"][n] = stats["by_n"].get(n, 0) + 1
         if "exc" in r:
             what = "does not terminate within the watchdog" if r["exc"] == "Timeout" else "raises %s %s" % (r["exc"], r.get("msg", ""))
-            ck.fail(None, "get_optimal_su_2_n_generators(%s) seed=%d %s" % (c["gens"], c["seed"], what), dict(c, result=r)); continue
+            ck.fail(None, "get_optimal_su_2_n_generators(%s) seed=%d %s" % (c.get("present") or c["gens"], c["seed"], what), dict(c, result=r)); continue
         out = r["out"]
         bad = []
         # the optimiser starts from get_independents(): members of the collection, in order, minus the reported dependents,
